@@ -13,6 +13,18 @@ Theorem C11_unescape_iw_spec : unescape_iw_spec_stmt.
 Proof. exact unescape_iw_spec. Qed.
 Print Assumptions C11_unescape_iw_spec.
 
+Theorem C11_esc_table_spec : esc_table_spec_stmt.
+Proof. exact esc_table_spec. Qed.
+Print Assumptions C11_esc_table_spec.
+
+Theorem C11_esc_table_orig_refuted : esc_table_orig_refuted_stmt.
+Proof. exact esc_table_orig_refuted. Qed.
+Print Assumptions C11_esc_table_orig_refuted.
+
+Theorem C11_lex_esc_refuted : lex_esc_refuted_stmt.
+Proof. exact lex_esc_refuted. Qed.
+Print Assumptions C11_lex_esc_refuted.
+
 Theorem C11_unescape_iw_refuted : unescape_iw_refuted_stmt.
 Proof. exact unescape_iw_refuted. Qed.
 Print Assumptions C11_unescape_iw_refuted.
@@ -44,6 +56,26 @@ Print Assumptions C11_trim_end_unescaped_spec.
 Theorem C11_trim_end_split : trim_end_split_stmt.
 Proof. exact trim_end_split_lemma. Qed.
 Print Assumptions C11_trim_end_split.
+
+Theorem C11_trim_end_keeps : trim_end_keeps_stmt.
+Proof. exact trim_end_keeps. Qed.
+Print Assumptions C11_trim_end_keeps.
+
+Theorem C11_trim_orig_refuted : trim_orig_refuted_stmt.
+Proof. exact trim_orig_refuted. Qed.
+Print Assumptions C11_trim_orig_refuted.
+
+Theorem C11_lex_trim_refuted : lex_trim_refuted_stmt.
+Proof. exact lex_trim_refuted. Qed.
+Print Assumptions C11_lex_trim_refuted.
+
+Theorem C11_declared_names_spec : declared_names_spec_stmt.
+Proof. exact declared_names_spec. Qed.
+Print Assumptions C11_declared_names_spec.
+
+Theorem C11_decl_blanks_refuted : decl_blanks_refuted_stmt.
+Proof. exact decl_blanks_refuted. Qed.
+Print Assumptions C11_decl_blanks_refuted.
 
 Theorem C11_lex_parse_total : lex_parse_total_stmt.
 Proof. exact lex_parse_total. Qed.
